@@ -41,6 +41,8 @@ def value_alphabet():
         ('set', 'any', {1, 2}), ('set', 'any', set()),
         ('array', 'array', [1, [2, {'k': D('1.5')}], datetime.date(2020, 1, 1)]), ('array', 'array', []),
         ('object', 'object', {'a': {'b': [datetime.time(1, 2, 3), None]}, 'é': ' '}),
+        ('array-float', 'array', [0.1, 1.5, [3.14, -0.0]]), ('object-float', 'object', {'x': 0.1, 'y': [1e-7, 2.0], 'z': 10 ** 20}),
+        ('any-float', 'any', 0.3), ('any-int', 'any', 7), ('any-nested', 'any', {'k': [0.1, D('0.1'), 1]}),
         ('object-taglike', 'object', {'type{date}': 'x'}), ('object-taglike-valid', 'object', {'type{decimal}': '1.5'}),
         ('string', 'string', 'é😀  "q" \\ \n\tend'), ('string', 'string', ''), ('string', 'string', '{"type{date}": "2020-01-01"}'),
         ('bool', 'boolean', True), ('null', 'string', None),
@@ -81,6 +83,10 @@ def value_case(case):
         res.append(('empty', [('w', 'string')], []))
         res.append(('other', [('w', 'string')], [{'w': 'x'}]))
     st = mkstate(res)
+    # package- and resource-level metadata set before the checkpoint belongs to "the same descriptor"
+    st.desc.update({'name': 'pkg', 'title': 'Títle', 'version': '1.2.3', 'licenses': [{'name': 'CC0', 'path': 'http://x/y'}],
+                    'x-custom': {'nested': [1, {'k': None}]}})
+    st.desc['resources'][0].update({'title': 'R', 'x-res': [1, 2]})
     classes = sorted({v[0] for v in vals})
     pulls = []
     out = []
@@ -180,7 +186,7 @@ def history_flow(root, counters, fail=None):
             row['id'] += 100
             row['amt'] = None if row['amt'] is None else row['amt'] * 2
     return core.Flow(core.from_state(st, on_pull=pulled),
-                     counting('A'), core.dataflows.add_field('fa', 'integer', 1),
+                     counting('A'), core.dataflows.add_field('fa', 'integer', 1), core.dataflows.update_package(title='H', custom={'k': [1]}),
                      core.dataflows.checkpoint('c1', checkpoint_path=root),
                      counting('B'), bump, core.dataflows.add_field('fb', 'integer', 2),
                      core.dataflows.checkpoint('c2', checkpoint_path=root),
